@@ -3,7 +3,7 @@
 
 use crate::engine::CheckResult;
 use crate::{ensure, fail};
-use seq_io::parallel::{parallel_fasta, parallel_fasta_init, parallel_fastq, parallel_fastq_init, read_parallel};
+use seq_io::parallel::{parallel_fasta, parallel_fasta_init, parallel_fastq, parallel_fastq_init, parallel_records, read_parallel};
 use seq_io::{fasta, fastq};
 use serde_derive::{Deserialize, Serialize};
 use std::io::Read;
@@ -23,12 +23,33 @@ pub struct RealCfg {
     pub queue_len: usize,
     /// consumer returns after k records
     pub stop_after: Option<u16>,
-    /// 0 = parallel_fx, 1 = parallel_fx_init, 2 = read_parallel over RecordSets
+    /// 0 = parallel_fx, 1 = parallel_fx_init, 2 = read_parallel over RecordSets, 3 = parallel_records (generic per-record function)
     pub api: u8,
     pub reader_init_fails: bool,
     pub data_init_fail_at: Option<u16>,
     pub rset_init_fail_at: Option<u8>,
     pub work_yields: u8,
+    /// api 2 only: the reader gets `DoubleUntil(t)` instead of the standard policy (records longer than t make
+    /// it grow linearly above the threshold)
+    #[serde(default)]
+    pub policy_t: Option<u8>,
+}
+
+/// `DoubleUntil(t)` with a guard: a policy answer that does not grow would make the reader thread spin forever
+/// without a scheduling point; the guard turns that into a panic, which the schedule tier reports.
+pub struct GuardedDoubleUntil {
+    t: usize,
+}
+impl seq_io::policy::BufPolicy for GuardedDoubleUntil {
+    fn grow_to(&mut self, current_size: usize) -> Option<usize> {
+        let a = seq_io::policy::DoubleUntil(self.t).grow_to(current_size);
+        if let Some(a) = a {
+            if a <= current_size {
+                panic!("growth policy stalled: DoubleUntil({}).grow_to({}) = {} (the reader thread would never return)", self.t, current_size, a);
+            }
+        }
+        a
+    }
 }
 
 pub struct Chunked {
@@ -201,7 +222,7 @@ macro_rules! per_record_apis {
         let work = move |rec: $rec, d: &mut u64| {
             late(&o_w, "work");
             for _ in 0..yields {
-                shuttle::thread::yield_now();
+                crate::sys::yield_now();
             }
             *d = $hashfn(&rec).1;
         };
@@ -281,7 +302,66 @@ fn mk_fq(doc: Vec<u8>, cap: usize, chunk: u8) -> fastq::Reader<Chunked> {
 /// One execution; must be called inside shuttle.
 pub fn execute_real(c: &RealCfg, obs: &SharedReal) {
     let doc = document(c);
-    let res: Result<bool, RealE> = if c.api <= 1 {
+    let res: Result<bool, RealE> = if c.api == 3 {
+        // the generic per-record function over any parallel::Reader whose data set iterates over records
+        let stop = c.stop_after;
+        let yields = c.work_yields;
+        let (o_w, o_f) = (obs.clone(), obs.clone());
+        let mut n_seen = 0usize;
+        if c.fastq {
+            let reader = mk_fq(doc, c.cap, c.chunk);
+            parallel_records(
+                reader,
+                c.n_threads,
+                c.queue_len,
+                move |rec: fastq::RefRecord, d: &mut u64| {
+                    late(&o_w, "work");
+                    for _ in 0..yields {
+                        crate::sys::yield_now();
+                    }
+                    *d = fq_hash(&rec).1;
+                },
+                move |rec: fastq::RefRecord, d: &u64| {
+                    late(&o_f, "func");
+                    let (idx, h) = fq_hash(&rec);
+                    o_f.lock().unwrap().seen.push((idx, *d == h, h));
+                    n_seen += 1;
+                    match stop {
+                        Some(k) if n_seen >= k as usize => Some(()),
+                        _ => None,
+                    }
+                },
+            )
+            .map(|o| o.is_some())
+            .map_err(RealE::from)
+        } else {
+            let reader = mk_fa(doc, c.cap, c.chunk);
+            parallel_records(
+                reader,
+                c.n_threads,
+                c.queue_len,
+                move |rec: fasta::RefRecord, d: &mut u64| {
+                    late(&o_w, "work");
+                    for _ in 0..yields {
+                        crate::sys::yield_now();
+                    }
+                    *d = fa_hash(&rec).1;
+                },
+                move |rec: fasta::RefRecord, d: &u64| {
+                    late(&o_f, "func");
+                    let (idx, h) = fa_hash(&rec);
+                    o_f.lock().unwrap().seen.push((idx, *d == h, h));
+                    n_seen += 1;
+                    match stop {
+                        Some(k) if n_seen >= k as usize => Some(()),
+                        _ => None,
+                    }
+                },
+            )
+            .map(|o| o.is_some())
+            .map_err(RealE::from)
+        }
+    } else if c.api <= 1 {
         if c.fastq {
             per_record_apis!(c, obs, doc, parallel_fastq, parallel_fastq_init, fastq::Reader<Chunked>, fastq::RefRecord, fq_hash, mk_fq)
         } else {
@@ -294,7 +374,7 @@ pub fn execute_real(c: &RealCfg, obs: &SharedReal) {
         let o_w = obs.clone();
         let o_f = obs.clone();
         if c.fastq {
-            let reader = mk_fq(doc, c.cap, c.chunk);
+            let reader = mk_fq(doc, c.cap, c.chunk).set_policy(GuardedDoubleUntil { t: c.policy_t.map_or(1 << 23, |t| t.max(1) as usize) });
             read_parallel(
                 reader,
                 c.n_threads,
@@ -302,7 +382,7 @@ pub fn execute_real(c: &RealCfg, obs: &SharedReal) {
                 move |set: &mut fastq::RecordSet| {
                     late(&o_w, "work");
                     for _ in 0..yields {
-                        shuttle::thread::yield_now();
+                        crate::sys::yield_now();
                     }
                     set.into_iter().map(|r| fq_hash(&r).1).collect::<Vec<u64>>()
                 },
@@ -337,7 +417,7 @@ pub fn execute_real(c: &RealCfg, obs: &SharedReal) {
                 },
             )
         } else {
-            let reader = mk_fa(doc, c.cap, c.chunk);
+            let reader = mk_fa(doc, c.cap, c.chunk).set_policy(GuardedDoubleUntil { t: c.policy_t.map_or(1 << 23, |t| t.max(1) as usize) });
             read_parallel(
                 reader,
                 c.n_threads,
@@ -345,7 +425,7 @@ pub fn execute_real(c: &RealCfg, obs: &SharedReal) {
                 move |set: &mut fasta::RecordSet| {
                     late(&o_w, "work");
                     for _ in 0..yields {
-                        shuttle::thread::yield_now();
+                        crate::sys::yield_now();
                     }
                     set.into_iter().map(|r| fa_hash(&r).1).collect::<Vec<u64>>()
                 },
